@@ -48,6 +48,10 @@ def scripts():
     # idle: nothing is scripted after the transfer; the run continues to the idle deadline
     out["idle:after_echo"] = {"c": [W(0, 500, True)], "s": [W(0, 500, True, g=("rxfin", 0))]}
     out["idle:handshake_only"] = {"c": [], "s": []}
+    # total blackout with data outstanding (PTO back-off), then close() / idle
+    out["blackout:close_after_ptos"] = {"c": [W(0, 3000, True), W(4, 100, g=("t", 0.05)), CLOSE(g=("t", 2.0))],
+                                        "s": [W(1, 3000, True)]}
+    out["blackout:idle"] = {"c": [W(0, 3000, True), W(4, 100, g=("t", 0.05))], "s": [W(1, 3000, True)]}
     return out
 
 
@@ -63,9 +67,12 @@ def factory(sc):
     name = sc["script"]
     if name.startswith("idle"):
         cfg.setdefault("idle", 3.0)
+    elif name.startswith("blackout"):
+        cfg.setdefault("idle", 8.0)
+        cfg.setdefault("blackout_from", 0.045)
     else:
         cfg.setdefault("idle", 20.0)
-    kw = {"max_steps": 400, "horizon": 100.0, "deviations": tuple(sc.get("dev", ("drop", "dup", "delay", "late")))}
+    kw = {"max_steps": 400, "horizon": 100.0, "deviations": tuple(sc.get("dev", ("drop", "dup", "duplate", "delay", "late")))}
     return cfg, SCRIPTS[name], [TimerMonitor()], kw, goal
 
 
